@@ -1,0 +1,53 @@
+//! Verification hooks (compiled only with `--features apache_avro_rs_verif`).
+//!
+//! Thin public wrappers around crate-private functions so that the replay / fidelity
+//! binaries of the verification machinery can call the *real* code. Adds no behaviour.
+
+use crate::{AvroResult, Schema, schema::Name, types::Value};
+use std::{
+    collections::HashMap,
+    io::{Read, Write},
+};
+
+pub fn zig_i32<W: Write>(n: i32, w: W) -> AvroResult<usize> {
+    crate::util::zig_i32(n, w)
+}
+pub fn zig_i64<W: Write>(n: i64, w: W) -> AvroResult<usize> {
+    crate::util::zig_i64(n, w)
+}
+pub fn zag_i32<R: Read>(r: &mut R) -> AvroResult<i32> {
+    crate::util::zag_i32(r)
+}
+pub fn zag_i64<R: Read>(r: &mut R) -> AvroResult<i64> {
+    crate::util::zag_i64(r)
+}
+pub fn read_usize<R: Read>(r: &mut R) -> AvroResult<usize> {
+    crate::util::read_usize(r)
+}
+pub fn safe_len(len: usize) -> AvroResult<usize> {
+    crate::util::safe_len(len)
+}
+pub fn safe_collection_len_value(total_items: usize) -> AvroResult<()> {
+    crate::util::safe_collection_len::<Value>(total_items)
+}
+pub fn decode_len<R: Read>(r: &mut R) -> AvroResult<usize> {
+    crate::decode::decode_len(r)
+}
+pub fn encode_bytes<W: Write>(s: &[u8], w: W) -> AvroResult<usize> {
+    crate::encode::encode_bytes(s, w)
+}
+pub fn encode_internal<W: Write>(
+    value: &Value,
+    schema: &Schema,
+    names: &HashMap<Name, Schema>,
+    writer: &mut W,
+) -> AvroResult<usize> {
+    crate::encode::encode_internal(value, schema, names, None, writer)
+}
+pub fn decode_internal<R: Read>(
+    schema: &Schema,
+    names: &HashMap<Name, Schema>,
+    reader: &mut R,
+) -> AvroResult<Value> {
+    crate::decode::decode_internal(schema, names, None, reader)
+}
